@@ -517,7 +517,7 @@ void vf_run(const uint8_t *data, size_t len)
     T[1].init(true, "rb");
     TW[0].init(false, "bin'");
     TW[1].init(true, "rb'");
-    bool twin = false;
+    bool twin_on[2] = {false, false};
     std::vector<uint8_t> tab;
     for (int o = 0; o < NOPS; o++) for (int k = 0; k < PROFILES[prof][o]; k++) tab.push_back((uint8_t)o);
     TRACE("header kind=%s keys=%d cmp=%d maxlive=%zu profile=%d", kind == 0 ? "both" : kind == 1 ? "bintree" : "rbtree", K,
@@ -546,15 +546,27 @@ void vf_run(const uint8_t *data, size_t len)
         for (int i = 0; i < 2; i++) {
             if (!use[i]) continue;
             Obs oa, ob;
-            apply(T[i], cx, op, a, b, K, maxlive, twin ? &oa : nullptr, audits);
-            if (twin) {
-                apply(TW[i], cx, op, a, b, K, maxlive, &ob, audits);
-                CHECK(oa == ob, T[i].rb ? "C15.rbtree.reuse" : "C15.bintree.reuse",
-                      "after clear the tree behaves differently from a freshly initialised one (op %s)", OPN[op]);
+            bool first_clear = c15 && op == CLEAR && !twin_on[i];
+            const char *rc = T[i].rb ? "C15.rbtree.reuse" : "C15.bintree.reuse";
+            if (!twin_on[i] && !first_clear) { apply(T[i], cx, op, a, b, K, maxlive, nullptr, audits); continue; }
+            bool okA = model_ok([&] { apply(T[i], cx, op, a, b, K, maxlive, &oa, audits); });
+            bool okB;
+            if (first_clear) {
+                // the state right after the clear is compared with a freshly initialised tree, and so is everything after it
+                twin_on[i] = true;
+                TRACE("%s twin created: a fresh tree mirrors every further op", T[i].tag);
+                oa.clear();
+                okA = model_ok([&] { full_audit(T[i], K, &oa); }) && okA;
+                okB = model_ok([&] { full_audit(TW[i], K, &ob); });
+            } else {
+                okB = model_ok([&] { apply(TW[i], cx, op, a, b, K, maxlive, &ob, audits); });
                 cx.reuse = true;
             }
+            CHECK(okA == okB, rc, "after clear the tree %s the tree model where a freshly initialised one %s (op %s)",
+                  okA ? "satisfies" : "violates", okB ? "satisfies it" : "does not", OPN[op]);
+            if (!okA) throw Abandon{"C01.(cleared tree and fresh twin alike)"};
+            CHECK(oa == ob, rc, "after clear the tree behaves differently from a freshly initialised one (op %s)", OPN[op]);
         }
-        if (op == CLEAR && c15 && !twin) { twin = true; TRACE("twins created: fresh trees mirror every further op"); }
     }
     g_cur_op = "final audit";
     for (int i = 0; i < 2; i++) if (use[i]) { full_audit(T[i], K, nullptr); if (T[i].n >= 3) cx.walk3 = true; }
@@ -562,7 +574,7 @@ void vf_run(const uint8_t *data, size_t len)
     for (int i = 0; i < 2; i++) {
         if (!use[i]) continue;
         apply(T[i], cx, CLEAR, 0, 0, K, maxlive, nullptr, false);
-        if (twin) apply(TW[i], cx, CLEAR, 0, 0, K, maxlive, nullptr, false);
+        if (twin_on[i]) apply(TW[i], cx, CLEAR, 0, 0, K, maxlive, nullptr, false);
         CHECK(T[i].all.empty(), T[i].rb ? "C15.rbtree.once" : "C15.bintree.once", "%zu elements never reached the clear callback", T[i].all.size());
     }
     if (c15) g_nontrivial = cx.clear3 && cx.reuse;
